@@ -64,8 +64,10 @@ def host_of(url_info):
 
 
 def gen_hop_url(rng, host=None):
+    # (ports that are the default of *another* scheme are not default for http and must appear in Host)
     host = host or rng.choice(['a.test', 'a.test', 'b.test', 'c.test', 'a.test:8080', 'b.test:81', 'bücher.test', '127.0.2.9',
-                               '[::1]', '[::1]:8080'])
+                               '[::1]', '[::1]:8080', 'a.test:443', 'c.test:21', 'b.test:70', '[::1]:443', 'a.test:80',
+                               'b.test:8443'])
     path = '/' + '/'.join(rng.choice(['x', 'y y', 'é', '%0D%0A', 'a%20b', '%00', 'HTTP/1.1', 'q?', ';p', 'a:b', '~u', '%7e',
                                       '"q"', '<s>', 'x\\y', '..', '.', 'very' * 30])
                           for _ in range(rng.randrange(0, 4)))
